@@ -10,7 +10,8 @@ KANI_MEM_KB = int(os.environ.get('VERIF_KANI_MEM_GB', '14')) * 1024 * 1024
 class H:
     """one harness to run"""
 
-    def __init__(s, name, cap=600, required=True, features='default', covers=None, meaning='', expect='SUCCESSFUL', unsafe=False, role=None, decode=None, extra_args=None):
+    def __init__(s, name, cap=600, required=True, features='default', covers=None, meaning='', expect='SUCCESSFUL', unsafe=False, role=None, decode=None, extra_args=None, playback=False):
+        s.playback_ok = playback   # True: no behaviour-changing stubs, so the harness itself can be replayed natively on a counterexample
         s.name, s.cap, s.required, s.features, s.covers, s.meaning, s.expect, s.unsafe, s.role, s.decode = name, cap, required, features, covers, meaning, expect, unsafe, role, decode
         s.extra_args = extra_args or []
         s.verdict = None
@@ -107,7 +108,7 @@ class EngineB:
                 if h.cover_total and h.cover_ok < h.cover_total:
                     (ck.inconclusive if h.required else ck.not_covered).append(f'{h.name}: only {h.cover_ok}/{h.cover_total} reachability witnesses satisfied (harness partly vacuous)')
             elif h.verdict in ('TIMEOUT', 'ERROR', 'COMPILE_ERROR'):
-                msg = f'{h.name}: {h.verdict} after {h.secs:.0f}s' + (': ' + ' | '.join(l for l in h.out.split('\n') if 'error' in l.lower())[:600] if h.verdict != 'TIMEOUT' else '')
+                msg = f'{h.name}: {h.verdict} after {h.secs:.0f}s' + (': ' + ' | '.join(l for l in h.out.split('\n') if l.startswith('error'))[:600] if h.verdict != 'TIMEOUT' else '')
                 (ck.inconclusive if h.required else ck.not_covered).append(msg)
         return harnesses
 
@@ -115,12 +116,54 @@ class EngineB:
         """concrete-playback values of a FAILED harness: list of byte vectors in the order of the kani::any() calls"""
         rc, out, dt = s._run_one(h, playback=True)
         vecs = []
-        for blk in re.findall(r'let concrete_vals: Vec<Vec<u8>> = vec!\[(.*?)\];', out, re.S):
+        blocks = re.findall(r'/// Check for `(\w+)`: "([^"]*)".*?let concrete_vals: Vec<Vec<u8>> = vec!\[(.*?)\];', out, re.S)
+        # witnesses of cover properties are printed too: take the first block that belongs to a failed check
+        blocks = [b for b in blocks if b[0] != 'cover'] or []
+        for kind, desc, blk in blocks[:1]:
             for v in re.findall(r'vec!\[([^\]]*)\]', blk):
                 vecs.append([int(x) for x in v.replace(' ', '').split(',') if x != ''])
-            break
+            h.playback_check = desc
         h.playback = vecs
         return vecs
+
+
+def native_playback(B, h, vecs, release=False):
+    """run the harness itself natively (cargo kani playback) on the concrete values of a counterexample: the real compiled
+    code (no stubs, no model) must exhibit the failing assertion. Only meaningful for harnesses whose stubs are S_unreach."""
+    ov = os.path.join(B.root, 'pb_' + re.sub(r'\W', '_', h.name))
+    common.build_overlay(ov, kani=True, replay=False, allow_unsafe=h.unsafe)
+    src = None
+    for root, _, files in os.walk(os.path.join(ov, 'src')):
+        for f in files:
+            if f == 'verif_kani.rs':
+                p = os.path.join(root, f)
+                txt = open(p).read()
+                if re.search(r'fn %s\s*\(' % re.escape(h.name), txt) or re.search(r'!\(\s*%s\s*,' % re.escape(h.name), txt):
+                    src = p
+    if not src:
+        return None, 'harness source not found'
+    test = '\n#[test]\nfn verif_playback() {\n    let concrete_vals: Vec<Vec<u8>> = vec![' + ', '.join('vec![' + ', '.join(map(str, v)) + ']' for v in vecs) + \
+           f'];\n    kani::concrete_playback_run(concrete_vals, {h.name});\n}}\n'
+    # place the test in the same module as the harness (nested `mod` blocks: append before the final closing brace of that mod if needed)
+    txt = open(src).read()
+    m = re.search(r'\nmod (\w+) \{', txt)
+    if m and txt.find('fn ' + h.name) > m.start() or (m and re.search(r'!\(\s*%s\s*,' % re.escape(h.name), txt[m.start():])):
+        k = txt.rstrip().rfind('}')
+        txt = txt[:k] + test + '}\n'
+    else:
+        txt = txt + test
+    open(src, 'w').write(txt)
+    env = dict(common.ENV)
+    cmd = 'cargo kani playback -Z concrete-playback ' + ' '.join(FEAT[h.features]) + (' --release' if release else '') + ' -- verif_playback'
+    p = subprocess.run(['bash', '-c', f'exec timeout 900 {cmd}'], cwd=ov, env=env, capture_output=True, text=True)
+    out = p.stdout + p.stderr
+    shutil.rmtree(os.path.join(ov, 'target'), ignore_errors=True)
+    if re.search(r'test result: FAILED', out) or 'panicked at' in out:
+        msg = re.search(r'panicked at [^\n]*\n([^\n]*)', out)
+        return True, (msg.group(0).replace('\n', ' ') if msg else 'test failed')[:400]
+    if re.search(r'test result: ok', out):
+        return False, 'playback test passed natively'
+    return None, out[-800:]
 
 
 def le_int(b, signed):
